@@ -182,6 +182,12 @@ def run(tier='quick'):
     T13 = chk.rule('T13', '1.x: every statement that selects the crates below a crate excludes the self-parent row '
                           'that marks a root (children, lookup by parent and name)', floor=2)
     self_parent_excluded(prog, cg, eff, chk, T13)
+    T18 = chk.rule('T18', '2.x table level: a playlist row is stored only at a position that exists - before the statement that '
+                          'writes parentListId / nextListId, add() and update() look the parent up by id and the successor '
+                          'up among the playlists under that parent, and throw when either is missing (a parent no playlist '
+                          'has leaves a live crate outside every listing, or - the row\'s own future id - an endless '
+                          'trigger recursion; a successor that is no sibling drops rows out of children())', floor=4)
+    position_exists(prog, cg, eff, chk, T18)
     T17 = chk.rule('T17', 'sibling names are unique, so that a lookup by parent and name finds exactly one crate: every '
                           'operation that gives a crate a (parent, name) pair - create root / sub crate, rename, re-parent - '
                           'runs on a table that declares UNIQUE (title, parent) in every version, or looks the pair up '
@@ -728,6 +734,45 @@ def cycle_guard(prog, cg, eff, chk, T2, spec=None):
                               'becomes cyclic (2.x: the recursive views then never terminate)' % (
                                   _short(qn), 'no read of %s keyed on id() precedes the first write' % role['table']
                                   if not cl else 'no throw depends on the closure query'))
+
+
+def position_exists(prog, cg, eff, chk, rid):
+    for name in ('add', 'update'):
+        qn = V2 + 'playlist_table::' + name
+        for f, ip, ret in evaluate(prog, cg, eff, qn):
+            chk.analysed(f)
+            pos_writes = [w.seq for w in ip.writes if (w.table or '').lower() == 'playlist'
+                          and (w.column or '') in ('parentlistid', 'nextlistid')]
+            if not pos_writes:
+                raise AnalysisBroken('T18: %s writes neither parentListId nor nextListId' % qn)
+            fw = min(pos_writes)
+
+            def from_field(v, fld):
+                return any(x[0] == 'in' and len(x) > 2 and x[2] == fld for x in vf.leaves(v))
+
+            def dependent_throw(rd):
+                later = sorted([r.seq for r in ip.reads if r.seq > rd.seq] + [fw])
+                for (seq, ty, node, fn, conds) in ip.throws:
+                    if rd.seq < seq < later[0] and any(
+                            x[0] == 'op' and isinstance(x[1], str) and x[1].startswith('sql:')
+                            for c in conds for x in _flat(c)):
+                        return True
+                return False
+            reads = [rd for rd in ip.reads if rd.seq < fw and 'playlist' in _tables_of(rd)]
+            parent_ok = any(from_field((rd.where or {}).get('id'), 'parent_list_id') and dependent_throw(rd) for rd in reads)
+            next_ok = any(from_field((rd.where or {}).get('parentlistid'), 'parent_list_id') and
+                          'id' in {c.lower() for c in (rd.where or {})} and dependent_throw(rd) for rd in reads)
+            for what, ok, why in (('parent', parent_ok, 'a parent_list_id that no playlist has is stored: the new crate is live, in '
+                                   'crates(), and in no root_crates() / children() listing; with the id the row is about to '
+                                   'get it is its own parent and the isPersist trigger never returns'),
+                                  ('successor', next_ok, 'a next_list_id that is not a playlist under the same parent is stored: '
+                                   'the row, and every sibling chained behind it, drops out of children()')):
+                inst = '%s: %s looked up before the position is written, with a dependent throw' % (_short(qn), what)
+                if ok:
+                    chk.ok(rid, inst, locstr(f.node))
+                else:
+                    chk.violation(rid, '%s|%s not looked up' % (_short(qn), what), locstr(f.node),
+                                  '%s: not so - %s' % (inst, why))
 
 
 def cycle_guard_table(prog, cg, eff, chk, rid):
